@@ -279,6 +279,7 @@ func checkC19Proc(c c19Case, o *Obs) error {
 	default:
 		return fmt.Errorf("unknown proc kind %q", c.Proc)
 	}
+	baseArgs := append([]string{}, args...)
 	var r procResult
 	if stdoutFull || c.Flag && c.Proc == "snps" {
 		r = runBin(30*time.Second, "", full, args...) // stdout is /dev/full
@@ -294,6 +295,21 @@ func checkC19Proc(c c19Case, o *Obs) error {
 	}
 	if r.Exit == 0 {
 		return fmt.Errorf("gofasta %v: every write to the output fails with ENOSPC (/dev/full) but the exit status is 0\nstderr: %s", args, trunc(r.Stderr, 300))
+	}
+	// the other everyday way a write fails: stdout is a pipe whose reader has gone (`gofasta ... | head`, a consumer that died).
+	// Every write fails with EPIPE (or the process is killed by SIGPIPE): anything but exit status 0 is fine.
+	if pr, pw, err := os.Pipe(); err == nil {
+		pr.Close()
+		rp := runBin(30*time.Second, "", pw, baseArgs...)
+		pw.Close()
+		stats.count("fault_executions", 1)
+		o.Label("proc:closed-stdout-pipe")
+		if rp.TimedOut {
+			return fmt.Errorf("gofasta %v with stdout on a closed pipe did not terminate", baseArgs)
+		}
+		if rp.Exit == 0 {
+			return fmt.Errorf("gofasta %v: stdout is a pipe without a reader (every write fails with EPIPE) but the exit status is 0\nstderr: %s", baseArgs, trunc(rp.Stderr, 300))
+		}
 	}
 	o.NonTrivial()
 	return nil
